@@ -12,9 +12,10 @@ SPEC = {
                   "(full: variables outside pass_env / [build] passenv change neither hash), C10_partial_hermetic (the action environment "
                   "depends on the caller only through the pass lists - and HOME when there are secrets/system tools), "
                   "C10_passenv_rehash_single / C10_config_rehash_single (one passed variable: a changed value changes the hash), "
-                  "C10_passenv_rehash (general: equal hashes force equal name=value runs). DISPROVED at full strength by kernel-checked "
-                  "witnesses: Hermetic (C10_witness_home_leak), Deterministic (C10_witness_userenv_order), rehash on every pass_env "
-                  "change (C10_witness_passenv_unframed, C10_witness_config_unframed). C10_facts_ok pins every read of the process "
+                  "C10_passenv_rehash (general: equal hashes force equal name=value runs). C10_deterministic (full since fix 13a77d9: target.Env is applied in "
+                  "sorted key order; the repaired defect is kept as C10_witness_userenv_order_unsorted). DISPROVED at full strength by "
+                  "kernel-checked witnesses: Hermetic (C10_witness_home_leak), rehash on every pass_env change "
+                  "(C10_witness_passenv_unframed, C10_witness_config_unframed). C10_facts_ok pins every read of the process "
                   "environment on the build path, every key written and every cmd.Env assignment. Not modelled: sandbox/namespaces, "
                   "stamping (SCM_*), test/run environments, label tools/sources (paths come from the real accessors).",
     "technique": "Lean 4 theorems over a transcription of the environment functions + regenerated env-read/key/cmd.Env facts + "
@@ -46,5 +47,6 @@ Dry-runs on a scratch copy (VERIF_REPO=/var/tmp/mC07 ./check C10 quick):
  M4 config.go Hash: skip the build-env loop -> exit 1, failing inputs violation-config-passenv-change-not-rehashed and
     violation-e2e-config-passenv-change-not-rebuilt (all 13 theorems still check: Hash is tied by correspondence, not by a fact).
  M5 harmless: rename env -> benv inside TargetEnvironment -> exit 0 (phase-3 log; key extraction follows BuildEnv-typed variables).
- M6 GeneralBuildEnvironment: "LANG": os.Getenv("LANG") -> see phase-2 log.
+ M6 GeneralBuildEnvironment: "LANG": os.Getenv("LANG") -> exit 1, envReads fact + failing input violation-caller-env-leaks-into-action-env.
+ M7 (after fix 13a77d9) re-introduce `for k, v := range target.Env` in withUserProvidedEnv -> see below.
 """
